@@ -13,6 +13,15 @@ Theorem C16_end_to_end : forall q (matches : list (bytes * N)),
 Proof. exact find_end_to_end. Qed.
 Print Assumptions C16_end_to_end.
 
+(* the same for EVERY list of matches with pending statuses, empty identifiers included: such a match
+   reaches the user as (None, status) and does not end the iteration *)
+Theorem C16_end_to_end_any : forall q (matches : list (bytes * N)),
+  Forall (fun m => find_pending (snd m) = true) matches ->
+  find_scu (map rsp_pair (find_scp q matches))
+  = map (fun m => (opt_data (fst m), snd m)) matches ++ [(None, 0)].
+Proof. exact find_end_to_end_any. Qed.
+Print Assumptions C16_end_to_end_any.
+
 (* the user side alone: for any response list pend ++ [final] ++ rest with final not pending it yields
    exactly |pend| + 1 results and never looks at rest *)
 Theorem C16_user_stops : forall (pend : list (bytes * N)) (final : bytes * N) (rest : list (bytes * N)),
